@@ -392,6 +392,10 @@ func init() {
 		// ---- context ----
 		"context.WithValue":          modelWithValue,
 		"context.WithCancel":         modelWithCancel,
+		// deadlines never expire by themselves in the model (time does not pass):
+		// WithTimeout/WithDeadline are WithCancel
+		"context.WithTimeout":        modelWithCancel,
+		"context.WithDeadline":       modelWithCancel,
 		"(*context.cancelCtx).Err":   modelCancelErr,
 		"(*context.cancelCtx).Done":  func(e *Exec, c *frame, fn *ssa.Function, a []Value) Value { e.unsupported("ctx.Done"); return nil },
 		"context.Cause":              func(e *Exec, c *frame, fn *ssa.Function, a []Value) Value { e.unsupported("context.Cause"); return nil },
